@@ -8,6 +8,7 @@ from .tys import *
 from .strops import *
 from .interp import Raise, EngineLimit, NORMAL, St, SRange, UNBOUND, stmt_text
 from .contract import REGISTRY, OPAQUE_TYPES, GROUP_MODELS, Const
+from .tys import MutOpaque
 
 _expr_cache = {}
 
@@ -82,6 +83,9 @@ def fresh_value(I, st, t, name, lazy=False):
                 d[names[i]] = v
                 yield from go(i + 1, d, st1)
         yield from go(0, {}, st)
+    elif isinstance(t, MutOpaque):
+        v = SOpaque(I.fresh(name, opaque_sort(t.name)), t.name)
+        yield st, I.alloc(st, HObj('opaque:' + t.name, {'v': v}))
     elif isinstance(t, Opaque):
         yield st, SOpaque(I.fresh(name, opaque_sort(t.name)), t.name)
     elif isinstance(t, Const):
@@ -311,6 +315,16 @@ def opaque_fn(tname, meth, argtypes, rt, suffix=''):
 
 def call_opaque(I, node, f, args, kwargs, st):
     tname, meth = f.name.rsplit('.', 1)
+    if tname == 'Segment':
+        from . import segmodel
+        def go(i, aa, st):
+            if i == len(aa):
+                yield from segmodel.seg_call(I, node, f.selfv, meth, aa, kwargs, st)
+                return
+            for st1, v in I.force(st, aa[i]):
+                yield from go(i + 1, aa[:i] + [v] + aa[i + 1:], st1)
+        yield from go(0, list(args), st)
+        return
     spec = OPAQUE_TYPES.get(tname)
     if spec is None or meth not in spec['methods']:
         raise EngineLimit('abstract method %s' % f.name)
